@@ -30,6 +30,7 @@ import (
 	"mosn.io/mosn/pkg/protocol/xprotocol/bolt"
 	"mosn.io/mosn/pkg/types"
 	"mosn.io/mosn/pkg/upstream/cluster"
+	"mosn.io/mosn/pkg/verifhook"
 
 	"verif/harness/lab"
 )
@@ -210,6 +211,11 @@ func c09Engine(c *lab.Ctx) {
 				c.Distinct(fmt.Sprintf("%s|conc|%d", proto, round))
 			}
 			c09Quiescent(c, e, proto, "after the concurrent rounds")
+			// (d) steered order: the pool's close-event handler of a connection is held (bounded) until the stream that was in
+			// flight on that connection has been destroyed - the order the scheduler produces when the closing goroutine is
+			// descheduled between the stream layer's reset and the pool's handler
+			c09Steered(c, e, proto, rng, doOp)
+			c09Quiescent(c, e, proto, "after the steered close orders")
 			c09Capacity(c, e, proto)
 			c09Quiescent(c, e, proto, "after the capacity test")
 		}(proto, prng)
@@ -420,4 +426,81 @@ func c09History(e *engine, evs []upEvent, i int) []string {
 		out = append(out, fmt.Sprintf("seq=%d token=%s attempt=%d plan=%s busy=%d client=%s", u.Seq, u.Token, u.Attempt, u.Plan, u.BusyOnConn, outcome))
 	}
 	return out
+}
+
+// c09Steered: every operation that ends a connection, followed by two plain requests, with the pool's close handler delayed until
+// the in-flight stream of that connection was destroyed (or 150 ms passed).
+func c09Steered(c *lab.Ctx, e *engine, proto string, rng *lab.Rand, doOp func(cl client, proto, op string) clEvent) {
+	closePoint, destroyPoint := "http.pool.conn.close", "http.pool.request.dec"
+	if proto != "Http1" {
+		closePoint, destroyPoint = "xprotocol.pingpong.conn.close", "xprotocol.pingpong.stream.destroy"
+	}
+	var mu sync.Mutex
+	destroyed := map[uint64]chan struct{}{}
+	ch := func(id uint64) chan struct{} {
+		mu.Lock()
+		defer mu.Unlock()
+		x := destroyed[id]
+		if x == nil {
+			x = make(chan struct{})
+			destroyed[id] = x
+		}
+		return x
+	}
+	var ordered, unordered int64
+	verifhook.Set(destroyPoint, func(_ string, id uint64) {
+		x := ch(id)
+		mu.Lock()
+		select {
+		case <-x:
+		default:
+			close(x)
+		}
+		mu.Unlock()
+	})
+	verifhook.Set(closePoint, func(_ string, id uint64) {
+		select {
+		case <-ch(id):
+			atomic.AddInt64(&ordered, 1)
+			time.Sleep(3 * time.Millisecond) // let the destroying goroutine finish its pool bookkeeping first
+		case <-time.After(150 * time.Millisecond):
+			atomic.AddInt64(&unordered, 1) // idle connection closed, or the same goroutine does both: nothing to order
+		}
+	})
+	defer func() {
+		verifhook.Set(closePoint, nil)
+		verifhook.Set(destroyPoint, nil)
+	}()
+	n := 0
+	run := func(ops []string) {
+		n++
+		c.Case("c09 steered %s %v", proto, ops)
+		cl := e.newClient(proto, fmt.Sprintf("%s-steer-%d", proto, n))
+		for _, op := range ops {
+			// a fresh destroy marker per exchange: the handler must wait for THIS exchange's stream
+			mu.Lock()
+			destroyed = map[uint64]chan struct{}{}
+			mu.Unlock()
+			doOp(cl, proto, op)
+		}
+		cl.close()
+		c.Eval(1)
+		c.Distinct(proto + "|steered|" + strings.Join(ops, ">"))
+	}
+	for rep := 0; rep < c.Pick(2, 6); rep++ {
+		for _, op := range []string{"rst", "close", "half", "stall", "d700:ok", "s503", "dead"} {
+			run([]string{op, "ok", "ok"})
+			run([]string{"ok", op, "ok", op, "ok"})
+		}
+	}
+	for k := 0; k < c.Pick(3, 20); k++ {
+		var ops []string
+		for i := 0; i < 10; i++ {
+			ops = append(ops, c09Ops[rng.Intn(len(c09Ops))])
+		}
+		run(ops)
+	}
+	c.Count("steered_close_after_destroy_"+proto, atomic.LoadInt64(&ordered))
+	c.Count("steered_close_not_ordered_"+proto, atomic.LoadInt64(&unordered))
+	c.Require("steered close orders produced ("+proto+")", atomic.LoadInt64(&ordered) > 0, fmt.Sprint(ordered))
 }
